@@ -124,6 +124,28 @@ def main():
     if len(entries) < 50:
         print("suspiciously small table (%d)" % len(entries)); return 1
 
+    # the named-entity table of FormatterToHTML.cpp
+    fth = strip_comments(open(os.path.join(common.REPO, "src/xalanc/XMLSupport/FormatterToHTML.cpp"), encoding="utf-8", errors="replace").read())
+    m = re.search(r"FormatterToHTML::s_entities\s*\[\s*\]\s*=\s*\{", fth)
+    if not m:
+        print("s_entities not found"); return 1
+    # entries between "#if 0" and "#endif" are compiled out; any other directive inside the table is not understood
+    end = fth.index("};", m.end())
+    body = re.sub(r"^[ \t]*#if[ \t]+0[ \t]*$.*?^[ \t]*#endif[ \t]*$", "", fth[m.end() - 1:end + 1], flags=re.S | re.M)
+    if re.search(r"^[ \t]*#", body, re.M):
+        print("preprocessor directive other than '#if 0' inside s_entities"); return 1
+    etab, _ = parse_braces(body, 0)
+    ents = []
+    for e in etab:
+        if not (isinstance(e, list) and len(e) == 3 and isinstance(e[2], list)):
+            print("unexpected entity entry %r" % (e,)); return 1
+        code, ln, nm = int(e[0]), int(e[1]), name_of(e[2])
+        if len(nm) != ln:
+            print("entity %d: length field %d, name %r" % (code, ln, nm)); return 1
+        ents.append((code, nm))
+    if len(ents) < 150:
+        print("suspiciously small entity table (%d)" % len(ents)); return 1
+
     def lstr(x):
         return '"' + x + '"'
     out = []
@@ -145,6 +167,10 @@ def main():
     out.append("]")
     out.append("/-- flags of the dummy entry returned for unknown element names -/")
     out.append("def htmlDummyFlags : Nat := %d" % dummy[1])
+    out.append("/-- FormatterToHTML::s_entities in source order: (code point, entity name as code points) -/")
+    out.append("def htmlEntities : List (Nat × List Nat) := [")
+    out.append(",\n".join("  (%d, /- %s -/ %s)" % (c, nm, codes(nm)) for c, nm in ents))
+    out.append("]")
     out.append("end XalanModel.Generated.C08")
     os.makedirs(common.GEN, exist_ok=True)
     p = os.path.join(common.GEN, "C08_HtmlTable.lean")
@@ -156,7 +182,7 @@ def main():
                "table": [{"name": n, "flags": f, "attrs": a} for n, f, a in entries],
                "source": [SRC, HDR]},
               open(os.path.join(common.CACHE, "c08_html_table.json"), "w"), indent=0)
-    print("c08_html_table: %d elements, dummy flags %d" % (len(entries), dummy[1]))
+    print("c08_html_table: %d elements, dummy flags %d, %d entities" % (len(entries), dummy[1], len(ents)))
     return 0
 
 
